@@ -56,6 +56,25 @@ let enc_products (l : ascii list list list) : Stdlib.String.t =
 
 let show_err k = "err\t" ^ err_name k
 
+(* sessions of operations on one object (Model/ManifestOps.v) *)
+let dec_tlop (s : Stdlib.String.t) : tl_op =
+  match String.split_on_char ',' s with
+  | ["A"; p; v; f; ex] -> TAdd (dec_str p, dec_str v, dec_opt f, dec_strlist ';' ex)
+  | ["W"; file; fa; na] -> TWrite (dec_str file, dec_opt fa, bool_of_field na)
+  | ["R"; file] -> TRead (dec_str file)
+  | _ -> failwith "bad tl op"
+let dec_mop (s : Stdlib.String.t) : m_op =
+  match String.split_on_char ':' s with
+  | ["A"; d] -> MAdd (construct true (dec_dep d))
+  | ["W"; file; noopt; fa; na] -> MWrite (dec_str file, bool_of_field noopt, dec_opt fa, bool_of_field na)
+  | ["R"; file; sp; rc] -> MRead (dec_str file, bool_of_field sp, bool_of_field rc)
+  | ["V"] -> MReverse
+  | _ -> failwith "bad manifest op"
+let enc_files (fs : (ascii list * ascii list) list) : Stdlib.String.t =
+  String.concat ";" (List.map (fun (n, t) -> enc_str n ^ "=" ^ enc_str t) fs)
+let enc_oerr (e : errkind option) : Stdlib.String.t =
+  match e with None -> "-" | Some k -> err_name k
+
 let handle (f : Stdlib.String.t array) : Stdlib.String.t =
   match f.(0) with
   | "mwrite" ->
@@ -92,6 +111,20 @@ let handle (f : Stdlib.String.t array) : Stdlib.String.t =
     let t = build_tl (dec_str f.(2)) (Some (dec_str f.(1))) (dec_tlentries f.(3)) in
     let l = List.map (as_flavor (dec_str f.(1))) (List.filter (visible (dec_str f.(1))) (sorted_entries t.tl_entries)) in
     "ok\t" ^ enc_products (List.map (fun (p, ((fl, v), ex)) -> p :: fl :: v :: ex) l)
+  | "tlops" ->
+    (* tag defflavor ops -> first error or -, then per step: getProducts(), the files *)
+    let s0 = { ts_list = tl_new (dec_str f.(1)) (dec_opt f.(2)); ts_files = [] } in
+    let (tr, e) = tl_trace s0 (List.map dec_tlop (split_sep '|' f.(3))) in
+    String.concat "\t" ("ok" :: enc_oerr e ::
+      List.concat_map (fun s -> [enc_products (tl_products s.ts_list); enc_files s.ts_files]) tr)
+  | "mops" ->
+    (* efl who time ver product version ops -> first error or -, then per step: product, version, deps, files *)
+    let s0 = { ms_man = { mf_product = dec_opt f.(5); mf_version = dec_opt f.(6); mf_deps = [] }; ms_files = [] } in
+    let (tr, e) = m_trace (dec_str f.(1)) (dec_str f.(2)) (dec_str f.(3)) (dec_str f.(4)) s0
+                    (List.map dec_mop (split_sep '|' f.(7))) in
+    String.concat "\t" ("ok" :: enc_oerr e ::
+      List.concat_map (fun s -> [enc_opt s.ms_man.mf_product; enc_opt s.ms_man.mf_version;
+                                 enc_deps s.ms_man.mf_deps; enc_files s.ms_files]) tr)
   | "mapping" -> "ok\t" ^ enc_mapping (m_of_rows (dec_rows f.(1)))
   | "inverse" ->
     (match m_inverse (m_of_rows (dec_rows f.(1))) with
